@@ -114,10 +114,10 @@ class IfConv(ast.NodeTransformer):
         raise Unsupported("lambda inside kernel")
 
     # ------------------------------------------------------------ statements
-    def _assign_target(self, tgt, value_expr):
+    def _assign_target(self, tgt, value_expr, how="assign"):
         if isinstance(tgt, ast.Name):
             return [ast.Assign(targets=[ast.Name(id=tgt.id, ctx=ast.Store())],
-                               value=_rt_call("assign", ast.Name(id=tgt.id, ctx=ast.Load()), value_expr))]
+                               value=_rt_call(how, ast.Name(id=tgt.id, ctx=ast.Load()), value_expr))]
         if isinstance(tgt, ast.Subscript):
             return [ast.Expr(_rt_call("store", self.visit(copy.deepcopy(tgt.value)), self._load(tgt.slice), value_expr))]
         if isinstance(tgt, (ast.Tuple, ast.List)):
@@ -127,7 +127,7 @@ class IfConv(ast.NodeTransformer):
                 if isinstance(el, ast.Starred):
                     raise Unsupported("starred assignment")
                 out.extend(self._assign_target(el, ast.Subscript(value=ast.Name(id=t, ctx=ast.Load()),
-                                                                  slice=ast.Constant(k), ctx=ast.Load())))
+                                                                  slice=ast.Constant(k), ctx=ast.Load()), how))
             return out
         raise Unsupported(f"assignment target {type(tgt).__name__}")
 
@@ -176,7 +176,7 @@ class IfConv(ast.NodeTransformer):
             raise Unsupported("for-else")
         it = self.visit(node.iter)
         item = self.tmp("it")
-        body = self._assign_target(node.target, _rt_call("loop_iter_begin", ast.Name(id=item, ctx=ast.Load())))
+        body = self._assign_target(node.target, _rt_call("loop_iter_begin", ast.Name(id=item, ctx=ast.Load())), "assign_iter")
         inner = self.block(node.body)
         body.append(ast.Try(body=inner, handlers=[], orelse=[], finalbody=[ast.Expr(_rt_call("loop_iter_end"))]))
         loop = ast.For(target=ast.Name(id=item, ctx=ast.Store()), iter=_rt_call("iter", it), body=body, orelse=[])
